@@ -51,10 +51,19 @@ func (g *c17gen) module() (text string, faultLine, fs, fe int, desc string) {
 			add("(trace! :ok)")
 		}
 	}
+	fk := g.r.Intn(12)
+	if fk >= 9 || g.r.Bool() {
+		// quoted data written EARLIER in the module: it mentions the names the fault will fail to find (never looked up here),
+		// and holds the values a later form throws — the error belongs to the form that fails, not to where its data was written
+		add("(def codes '(not-found forbidden [x y]))")
+		add("(def names-seen '(undefined-sym undefined-bare codes))")
+		g.hist["quoted-data-before"]++
+	}
 	for i, n := 0, g.r.Intn(5); i < n; i++ {
 		filler()
 	}
-	fault := []string{"(undefined-sym 1)", "undefined-bare", "(throw \"boom\")", "(throw {:code 7})", "(first 5)", "(nth [1] 9)", "(assert false)", "(assert nil \"msg\")", "(+ 1 \"s\")"}[g.r.Intn(9)]
+	fault := []string{"(undefined-sym 1)", "undefined-bare", "(throw \"boom\")", "(throw {:code 7})", "(first 5)", "(nth [1] 9)", "(assert false)", "(assert nil \"msg\")", "(+ 1 \"s\")",
+		"(throw (first codes))", "(throw (nth codes 2))", "(assert false (first codes))"}[fk]
 	if g.unmodelled && g.r.Intn(3) == 0 {
 		// the failing form is read at run time from a string (positions relative to that string, no module): the error must
 		// still be attributed to the place IN THIS MODULE that evaluated it
